@@ -133,7 +133,6 @@ Proof.
       exact (nth_map_nodup (fun kv : node * node => key_val (fst kv)) kvs Nk a b x y Ha' Hb' Hne Eq').
     + intros idx kv Hi seen0 r0 Eb. cbv beta in Eb. simpl in Eb.
       pose proof (nth_error_In _ _ Hi) as Hin.
-      destruct (skip_merged mt o (oid i) idx); [inversion Eb; apply ND_nil|].
       destruct (search_anchor _ _ _ _ (fst kv) seen0 _) as [ka_s| |]; simpl in Eb; try discriminate.
       destruct (search_anchor _ _ _ _ (snd kv) (snd ka_s) _) as [va_s| |]; simpl in Eb; try discriminate.
       destruct (_ || _); [inversion Eb; apply ND_nil|].
@@ -211,10 +210,9 @@ Proof.
       exact (nth_map_nodup (fun kv : node * node => key_val (fst kv)) kvs Nk a b x y Ha' Hb' Hne Eq').
     + intros idx kv Hi seen0 r0 Eb. unfold body in Eb. simpl in Eb. clear El body.
       pose proof (nth_error_In _ _ Hi) as Hin. pose proof (Nv _ Hin) as Hnv.
-      destruct (skip_merged mt o (oid i) idx); [inversion Eb; apply ND_nil|].
       destruct (search_anchor _ _ _ _ (fst kv) seen0 _) as [ka_s| |]; simpl in Eb; try discriminate.
       destruct (search_anchor _ _ _ _ (snd kv) (snd ka_s) _) as [va_s| |]; simpl in Eb; try discriminate.
-      destruct (negb (o_kalias o) && is_excl (fst ka_s)); [inversion Eb; apply ND_nil|].
+      destruct (_ || _); [inversion Eb; apply ND_nil|].
       rewrite Forall_forall in IH. destruct (IH _ Hin) as [_ IHv].
       assert (Hvp : forall r1, value_part lit re_search mt tm sp o
                        (fun v t l s => search_for_paths lit re_search mt aa tm sp o v t l s)
